@@ -275,12 +275,12 @@ def _str_json_mode(x) -> str:
 
 def routes_disagree(x) -> str | None:
     """All routes must give the same text (C08/C09: tagify() of a tree is a structural copy with objects
-    expanded; str/repr/_repr_html_/render are get_html_string of that copy in the default static
+    expanded; str/repr/_repr_html_/render are get_html_string of that copy in the default (invisible)
     dependency mode).  A tree holding un-expanded tagifiable objects cannot be rendered directly
     (RuntimeError): the direct route is then exempt.  Returns a description of the first
     disagreement, or None."""
     import htmltools as _h
-    if getattr(_h, "html_dependency_render_mode", "static") != "static":
+    if getattr(_h, "html_dependency_render_mode", "invisible") == "json":
         return None
     rs = [(n, safe_call(f)) for n, f in render_routes(x)]
     base = rs[1][1]
